@@ -84,8 +84,9 @@ def ipset_replay(ctx, cases, dims, placements, tag):
 
 def ipset(ctx, thorough):
     # the model alone: every list of <= 3 entries x every source
-    ctx.tlc("IpSet", "IpSet.tla", "MC_W4_L3_canon.cfg", workers=8, timeout=900, heap="8g")
+    ctx.tlc("IpSet", "IpSet.tla", "MC_W4_L3_quick.cfg", workers=8, timeout=900, heap="8g")
     if thorough:
+        ctx.tlc("IpSet", "IpSet.tla", "MC_W4_L3_canon.cfg", workers=8, timeout=1800, heap="8g")
         ctx.tlc("IpSet", "IpSet.tla", "MC_W4_L3_ordered.cfg", workers=8, timeout=1800, heap="12g")
         ctx.tlc("IpSet", "IpSet.tla", "MC_W5_L3_canon.cfg", workers=8, timeout=2400, heap="16g")
     # spec -> code
@@ -172,6 +173,11 @@ def run_replay(ctx, path):
         rec = json.load(f)
     rp = rec.get("replay", rec)
     kind = rp.get("kind")
+    # the model instance the recorded case belongs to, re-checked (small bounds) alongside the re-run
+    if kind == "ipset":
+        ctx.tlc("IpSet", "IpSet.tla", "MC_W4_L1.cfg", workers=2, timeout=300, heap="4g")
+    elif kind == "gate":
+        ctx.tlc("IpSet", "MC_Gate.tla", "Gate_tiny.cfg", workers=2, timeout=300, heap="4g")
     if kind == "ipset":
         res = ctx.go_driver("./c17", "TestIpSetOne", rp, name="replay_ipset", timeout=300)
     elif kind == "gate":
@@ -180,5 +186,7 @@ def run_replay(ctx, path):
         raise vf.MachineryError("unknown replay kind %r" % kind)
     replay_dir()
     ctx.take_driver_result(res, "[replay] ")
+    ctx._distinct.add("replay-file:" + os.path.basename(path))
+    ctx.sample({"replayed": os.path.basename(path), "kind": kind, "what": rec.get("what", "")[:300]})
     if res.get("skipped"):
         raise vf.MachineryError("replay skipped: %s" % res["skipped"][:3])
